@@ -77,8 +77,26 @@ def settings_for(cls, rng, tier):
     return uniq[:96]
 
 
+def corpus():
+    """cyclic inputs whose single safe walk uses an SCC edge twice (lower bound 2 on one variable), with several edge insertion
+    orders so that the order in which bound updates are queued differs from the column order"""
+    out = []
+    E = [("s", "a", 1), ("a", "b", 2), ("b", "c", 1), ("c", "a", 1), ("b", "t", 1)]
+    E2 = [("s", "a", 1), ("a", "b", 3), ("b", "c", 2), ("c", "d", 2), ("d", "a", 2), ("b", "t", 1)]
+    for base in (E, E2):
+        for order in (list(base), list(reversed(base)), base[1:] + base[:1], base[2:] + base[:2]):
+            nodes = list(dict.fromkeys(x for u, v, _ in order for x in (u, v)))
+            sp = gen.spec(nodes, [(u, v) for u, v, _ in order], eattr={(u, v): {"flow": f} for u, v, f in order})
+            for cls, kw in (("MinFlowDecompCycles", {}), ("kFlowDecompCycles", {"k": 1}), ("kMinPathErrorCycles", {"k": 1}), ("kLeastAbsErrorsCycles", {"k": 1}), ("kPathCoverCycles", {"k": 1})):
+                k2 = dict(kw)
+                if cls != "kPathCoverCycles":
+                    k2.update({"flow_attr": "flow", "weight_type": "int"})
+                out.append({"cls": cls, "inst": {"cls": cls, "spec": sp, "kw": k2}})
+    return out
+
+
 def gen_cases(tier, seed):
-    cases = []
+    cases = [dict(c, rs=f"C05corpus:{i}", tier=tier) for i, c in enumerate(corpus())]
     per = 10 if tier == "quick" else 60
     for cls in W.ALL:
         for i in range(per):
@@ -100,7 +118,10 @@ def objective_of(cls, res):
 def run_case(case):
     viol = []; obs = collections.Counter()
     rng = gen.rng_for(case["rs"]); cls = case["cls"]
-    inst, meta = W.random_instance(rng, cls, small=True)
+    if case.get("inst"):
+        inst = copy.deepcopy(case["inst"])
+    else:
+        inst, meta = W.random_instance(rng, cls, small=True)
     kw = inst["kw"]
     kw.pop("solution_weights_superset", None)
     if cls in W.ERR and kw.get("k") is None:
